@@ -898,6 +898,13 @@ func (pc *PartitionContext) allocate(result *objects.AllocationResult) *objects.
 	if app == nil {
 		log.Log(log.SchedPartition).Info("Application was removed while allocating",
 			zap.String("appID", appID))
+		// The allocation is already registered on the node, but it is only linked to the node further down: the
+		// application removal could not find the node to clean up. Do not leak the resources on the node.
+		if result.ResultType == objects.Allocated || result.ResultType == objects.AllocatedReserved {
+			if node := pc.GetNode(result.NodeID); node != nil {
+				node.RemoveAllocation(result.Request.GetAllocationKey())
+			}
+		}
 		return nil
 	}
 	// find the node make sure it still exists
